@@ -117,10 +117,8 @@ impl<S: Stream + Unpin> Stream for MergeUnbounded<S> {
             match poll {
                 Poll::Ready(Some(x)) => {
                     // start the next poll at the following group, so that one busy group cannot
-                    // starve the others; an emptied group stays under the cursor to be removed
-                    if !groups[*poll_next].streams.is_empty() {
-                        *poll_next += 1;
-                    }
+                    // starve the others
+                    *poll_next += 1;
                     return Poll::Ready(Some(x));
                 }
                 Poll::Ready(None) => {
